@@ -132,6 +132,11 @@ EVALS = [0]
 _orig_eval = KlongInterpreter.eval
 
 
+def _scalars():
+    """the interpreter's own scalar attributes (whatever their names: counters, depth gauges, flags)"""
+    return sorted((k, v) for k, v in K.__dict__.items() if v is None or type(v) in (int, float, bool, str))
+
+
 def repeatable(k0: int, k1: int, k2: int, k3: int) -> bool:
     """
     pre: 0 <= k0 < len(_alpha()) and 0 <= k1 < len(_alpha()) and 0 <= k2 < len(_alpha()) and 0 <= k3 < len(_alpha())
@@ -150,6 +155,7 @@ def repeatable(k0: int, k1: int, k2: int, k3: int) -> bool:
     res = []
     for rnd in range(2):
         K._module = None
+        hidden0 = _scalars()
         try:
             i, p = K.prog(t)
             res.append(("ok", i, shape(p), p))
@@ -157,6 +163,10 @@ def repeatable(k0: int, k1: int, k2: int, k3: int) -> bool:
             return verdict(False)
         except Exception as e:
             res.append(("err", type(e).__name__, None, None))
+        K._module = None
+        if _scalars() != hidden0:
+            return verdict(False)                 # the parser keeps no state between calls: an accepted OR REJECTED text leaves
+                                                  # every scalar attribute of the interpreter (counters, flags, modes) as it was
     K._module = None
     if res[0][:3] != res[1][:3]:
         return verdict(False)
@@ -269,8 +279,29 @@ def symtext_gate():
             "why": "%d lines parse differently from str and SymText" % bad}
 
 
+def long_text_family():
+    """concrete companion sweep (vt/longtext.py): unterminated / unclosed texts of up to 4000 characters under a wall-clock cap"""
+    import subprocess, json as _json
+    root = os.path.dirname(os.path.dirname(os.path.dirname(os.path.abspath(__file__))))
+    name = "long malformed texts (opener + up to 4000 filler characters) parse within the wall-clock cap (concrete sweep, not a solver verdict)"
+    try:
+        p = subprocess.run([sys.executable, "-W", "ignore", "-m", "vt.longtext"], capture_output=True, text=True, cwd=root, timeout=300,
+                           env={**os.environ, "VT_MODE": "real"})
+        r = _json.loads(p.stdout.strip().splitlines()[-1])
+    except Exception as e:
+        return {"name": name, "status": "inconclusive", "why": "sweep failed: %r" % (e,)}
+    if not r["slow"]:
+        return {"name": name, "status": "confirmed", "texts": r["texts"], "families": r["families"]}
+    gen = os.path.join(root, ".gen", "replays"); os.makedirs(gen, exist_ok=True)
+    path = os.path.join(gen, "C12-longtext.json")
+    _json.dump(r, open(path, "w"), indent=1)
+    c = r["slow"][0]
+    return {"name": name, "status": "violated", "call": "prog(%r... of length %s)" % (c.get("text_head"), c.get("text_len")),
+            "message": c["why"], "replay": path, "real": c["why"]}
+
+
 def extra_obligations(tier):
-    return [symtext_gate()]
+    return [symtext_gate(), long_text_family()]
 
 
 def bounds(tier):
